@@ -3,6 +3,7 @@ package main
 import (
 	"math/rand"
 	"sort"
+	"strings"
 )
 
 // C13: one key/value list built in all 16 option combinations; the Get answers of
@@ -109,6 +110,22 @@ func genModes(t *Tracer, m *Meta, tier string, seed int64) {
 		qs = uniq(qs)
 		runModesCase(t, m, c, qs)
 		m.class("family:" + fam)
+	}
+	// shared runs around the capacity of a step counter, followed by a 12-way fan-out:
+	// the step modes either refuse (no claim) or must agree with the prefix modes
+	for _, L := range []int{65534, 65536, 98304} {
+		common := strings.Repeat(string([]byte{byte(0x41 + r.Intn(20))}), L/2)
+		keys := []string{}
+		for i := 0; i < 12; i++ {
+			keys = append(keys, common+string([]byte{byte(10 + i*20)}))
+		}
+		enc := []string{"i32", "none"}[r.Intn(2)]
+		c := &TrieCase{Keys: keys, Enc: enc}
+		if enc != "none" {
+			c.Vals = valsFromPattern(enc, len(keys), 0, 1)
+		}
+		runModesCase(t, m, c, append(append([]string{}, keys...), common, common+"\x00", "x"))
+		m.class("long-run+fanout12")
 	}
 	for _, keys := range [][]string{{}, {""}, {"a"}} {
 		enc := pickEnc(r, "C13")
